@@ -4,3 +4,11 @@ add("C03",
     "Seeded search over API call histories (10..400 calls, boundary-class arguments, 9 emulator ids, chips 1..100, rates 8k..192k) executed against the real library; oracle = ASan + -fsanitize=bounds on the core sources + abort/terminate handlers + CPU watchdog + the header's documented failure returns. Evidence, not proof: a clean batch means no violation in the sampled histories.",
     "Trusts ASan/UBSan-bounds to see out-of-bounds accesses (far out-of-bounds into another live allocation can be missed by ASan; the bounds instrumentation covers the fixed-size tables of the core sources). Emulator cores are not UBSan-instrumented (pervasive benign shift UB). Tempo multipliers above 16 are excluded (cost, not termination).",
     "deterministic simulation: seeded API histories, sanitizer/termination oracle", "DESIGN.md 2/C03")
+add("C04",
+    "Seeded search over real-time/sequencer histories on a small alphabet (<=3 MIDI channels, <=6 keys, 1-2 chips) with pedals, arpeggio, bank reloads, chip-count/emulator/chip-type changes and scheduler-chosen time slices; after every call the structural invariants I0-I6 (note<->user links both ways, no duplicates, list sizes, glide/TTL counters, instrument pointer inside a loaded bank, chip key state from the register tap == has-users) are evaluated on the live state. The property's 'exhaustive for short sequences' is NOT discharged (that would be model checking); reach is reported as distinct occupancy patterns.",
+    "Internal state is read through the guarded friend hook H1 and the register tap H2; the invariants are the property's own clauses. Instrument-pointer check walks the live bank map.",
+    "deterministic simulation: seeded histories + time slicing, state invariants after every step", "DESIGN.md 2/C04")
+add("C05",
+    "Seeded search over note/pedal/sostenuto/CC120-123/panic/reset-state/program/time histories; a reference model written from the MIDI rules of the property predicts the sounding set after every call and is compared with {users of keyed-on chip channels}; every run ends with the bounded-liveness epilogue (release all, render 30 ms, nothing keyed on).",
+    "Executor keeps polyphony below the channel count (property precondition) by skipping note-ons the model says would exceed it; auto-arpeggio off; epilogue renders 30 ms + 2 frames.",
+    "deterministic simulation: seeded histories + time slicing, reference-model comparison + bounded liveness", "DESIGN.md 2/C05")
